@@ -1024,7 +1024,11 @@ class bpch1(bpch_base):
                 (header[7], header[8]) == (first_header[7], first_header[8]) or
                 offset == file_size
             ):
-                if offset == file_size:
+                # the last block of the file belongs to the first time step
+                # only if it does not start the next one
+                if offset == file_size and (
+                    (header[7], header[8]) != (first_header[7], first_header[8])
+                ):
                     dim = header[13][::-1]
                     # start = header[14][::-1]
                     data_type = dtype(
